@@ -1,10 +1,12 @@
 """Sandboxed fork pool.
 
 The parent imports and warms the library once, then forks long-lived workers.
-Chunks of state indices are handed out deterministically; a worker that dies or
-exceeds the watchdog is killed by PID and the chunk is bisected in fresh workers
-until the single offending state is isolated, which is then reported as a
-'crash' / 'hang' result for that state.
+Chunks of states are handed out deterministically.  A worker announces every
+state before executing it and streams each result back, so when a worker dies
+(compiled out-of-bounds access -> segfault) or a state exceeds the per-state
+watchdog, the parent knows exactly which state was running: the worker is
+killed by PID, that state is reported as 'crash' / 'hang', and the rest of the
+chunk is re-queued to a fresh worker forked from the clean parent image.
 """
 import multiprocessing as mp
 import os
@@ -27,11 +29,13 @@ def _worker_main(conn, func, init_func):
                 break
             cid, items = msg
             try:
-                res = func(items)
-                conn.send((cid, "ok", res))
+                for k, it in enumerate(items):
+                    conn.send(("at", cid, k))
+                    conn.send(("res", cid, k, func(it)))
+                conn.send(("done", cid))
             except BaseException as e:  # harness error, not a library error
-                conn.send((cid, "err", "".join(traceback.format_exception(type(e), e, e.__traceback__))))
-    except (EOFError, KeyboardInterrupt):
+                conn.send(("err", cid, "".join(traceback.format_exception(type(e), e, e.__traceback__))))
+    except (EOFError, KeyboardInterrupt, BrokenPipeError):
         pass
     finally:
         os._exit(0)
@@ -44,7 +48,9 @@ class _W:
         self.proc.start()
         cconn.close()
         self.task = None
-        self.t0 = None
+        self.cur = -1
+        self.t_item = None
+        self.n_res = 0
 
     def kill(self):
         try:
@@ -64,14 +70,14 @@ class HarnessError(RuntimeError):
 
 def run_chunks(func, chunks, nproc=None, timeout=120.0, init_func=None, on_result=None,
                progress=None):
-    """Run func(list_of_items) over chunks in forked workers.
+    """Run func(item) for every item of every chunk in forked workers.
 
-    Returns list of (chunk_items, status, payload) for abnormal single-item
-    chunks: status in {'crash','hang'}; normal results are passed to
-    on_result(items, result).  func must be defined before the call (fork).
+    on_result(item, result) is called in the parent for every normal result.
+    Returns a list of (item, status, payload) with status in {'crash','hang'}
+    for states that killed their worker or exceeded `timeout` seconds.
     """
     nproc = nproc or int(os.environ.get("VERIF_NPROC", "0") or 0) or min(16, os.cpu_count() or 1)
-    queue = [(i, list(c), timeout) for i, c in enumerate(chunks)]
+    queue = [(i, list(c)) for i, c in enumerate(chunks)]
     queue.reverse()
     next_id = len(queue)
     abnormal = []
@@ -80,7 +86,6 @@ def run_chunks(func, chunks, nproc=None, timeout=120.0, init_func=None, on_resul
     n_total = len(queue)
     try:
         while queue or any(w.task for w in workers):
-            # fill
             idle = [w for w in workers if w.task is None]
             while queue and (idle or len(workers) < nproc):
                 if idle:
@@ -88,58 +93,60 @@ def run_chunks(func, chunks, nproc=None, timeout=120.0, init_func=None, on_resul
                 else:
                     w = _W(func, init_func)
                     workers.append(w)
-                cid, items, to = queue.pop()
-                w.task = (cid, items, to)
-                w.t0 = time.time()
+                cid, items = queue.pop()
+                w.task = (cid, items)
+                w.cur = -1
+                w.n_res = 0
+                w.t_item = time.time()
                 w.pconn.send((cid, items))
             busy = [w for w in workers if w.task is not None]
             if not busy:
                 continue
-            ready = wait([w.pconn for w in busy] + [w.proc.sentinel for w in busy], timeout=1.0)
+            wait([w.pconn for w in busy] + [w.proc.sentinel for w in busy], timeout=1.0)
             now = time.time()
             for w in busy:
-                cid, items, to = w.task
-                got = None
-                if w.pconn in ready or w.pconn.poll():
-                    try:
-                        got = w.pconn.recv()
-                    except (EOFError, OSError):
-                        got = None
-                        status = "crash"
-                    if got is not None:
-                        _, st, res = got
-                        if st == "err":
-                            raise HarnessError("harness error in worker:\n" + res)
-                        w.task = None
-                        n_done += 1
-                        if on_result:
-                            on_result(items, res)
-                        if progress:
-                            progress(n_done, n_total)
-                        continue
-                    dead = True
-                elif not w.proc.is_alive():
-                    dead = True
+                cid, items = w.task
+                broken = False
+                try:
+                    while w.task is not None and w.pconn.poll():
+                        msg = w.pconn.recv()
+                        if msg[0] == "at":
+                            w.cur = msg[2]
+                            w.t_item = now
+                        elif msg[0] == "res":
+                            w.n_res = msg[2] + 1
+                            if on_result:
+                                on_result(items[msg[2]], msg[3])
+                        elif msg[0] == "done":
+                            w.task = None
+                            n_done += 1
+                            if progress:
+                                progress(n_done, n_total)
+                        elif msg[0] == "err":
+                            raise HarnessError("harness error in worker:\n" + msg[2])
+                except (EOFError, OSError):
+                    broken = True
+                if w.task is None:
+                    continue
+                status = None
+                if broken or not w.proc.is_alive():
+                    # drain is complete (poll returned False or pipe broke)
                     status = "crash"
-                elif now - w.t0 > to:
-                    dead = True
+                elif now - w.t_item > timeout:
                     status = "hang"
-                else:
-                    dead = False
-                if dead:
+                if status:
                     code = w.proc.exitcode
                     w.kill()
                     workers.remove(w)
-                    if len(items) <= 1:
-                        abnormal.append((items, status, {"exitcode": code, "timeout_s": to}))
-                        n_done += 1
-                    else:
-                        h = len(items) // 2
-                        # bisect: halves get the same budget
-                        queue.append((next_id, items[:h], to))
-                        queue.append((next_id + 1, items[h:], to))
-                        next_id += 2
+                    k = max(w.cur, w.n_res)  # the state that was running
+                    if k < len(items):
+                        abnormal.append((items[k], status, {"exitcode": code, "timeout_s": timeout}))
+                    rest = items[k + 1:]
+                    if rest:
+                        queue.append((next_id, rest))
+                        next_id += 1
                         n_total += 1
+                    n_done += 1
     finally:
         for w in workers:
             try:
